@@ -2,6 +2,7 @@ SPECIFICATION Spec
 CONSTANTS
   Names = {"a", "A", "b"}
   Vals = {"1", "2"}
+  SetPathKids = 0
   MaxKids = 2
 INVARIANT SetGet
 INVARIANT DelShrinks
